@@ -16,12 +16,13 @@ import copy
 import pfimport  # noqa: F401
 from pfimport import exc_enum
 
+import c10_nestmap as NM
 import c10_runner as R
 import mapgen
 import pipegen
 
 PID = "C10"
-PROPS = ["PfModel.Props.C10", "PfModel.Props.C10Axis", "PfModel.Props.C10Total", "PfModel.Props.C10Map", "PfModel.Props.C10Ops", "PfModel.Props.C10Ren", "PfModel.Props.C10AxisPrior"]
+PROPS = ["PfModel.Props.C10", "PfModel.Props.C10Axis", "PfModel.Props.C10Total", "PfModel.Props.C10Map", "PfModel.Props.C10Ops", "PfModel.Props.C10Ren", "PfModel.Props.C10AxisPrior", "PfModel.Props.C10NestMap", "PfModel.Props.C10NestMapRun"]
 DRIVER = "C10"
 RULE = ("an environment with a pipegen DAG (1-5 term-building functions: tuple outputs, shared parameters, defaults, bound values, renames) or a "
         "well-formed mapgen MapSpec pipeline (1-3 functions), optionally a second pipeline to join; a history of 1-3 rewrites drawn by weight "
@@ -127,7 +128,9 @@ def propose(rng, runner, k, allow_mutation):
     dotted = any("." in n for n in outs + roots)
     if ent.kind == "map":
         table = [("copy", 1), ("pickle", 1), ("rename", 2.5), ("rename_x", 1.5), ("scope", 1.2), ("scope_sel", 2), ("unscope", 1.5 if dotted else 0.2), ("split", 1),
-                 ("add_axis", 3.5 if any(ent.tags.get(r, r) in ent.inputs for r in roots) and not any(n.count(".") > 1 for n in outs + roots) else 0), ("mutate", 0.7 if allow_mutation else 0)]
+                 ("add_axis", 3.5 if any(ent.tags.get(r, r) in ent.inputs for r in roots) and not any(n.count(".") > 1 for n in outs + roots) else 0), ("mutate", 0.7 if allow_mutation else 0),
+                 # round 4: nest_funcs / simplified_pipeline on MapSpec pipelines (combinable groups come from `gen_nestmap_case`; here mostly the refusals)
+                 ("nest", 2.0 if len(p.functions) >= 2 else 0), ("simplify", 1.2 if len(p.functions) >= 2 else 0)]
     else:
         # not joinable: a shared output name; a shared wrapped function (a pipeline and its own descendant: the map model tells functions
         # apart by name); outputs of each feeding the other (a cycle, which the model's `join` does not look for)
@@ -200,6 +203,8 @@ def propose(rng, runner, k, allow_mutation):
             keep = set(consumed) | {o for g in inner_graph_leaves[:1] for o in R.at_least_tuple(g.output_name)}
             keep |= {o for o in inner if rng.random() < 0.3}
             op["out"] = sorted(keep) or None
+            if op["out"] and len(op["out"]) > 1 and rng.random() < 0.4:
+                rng.shuffle(op["out"])               # `output_name` need not be in alphabetical order
         elif r < 0.32 and len(inner) > 1:
             op["out"] = sorted(rng.sample(inner, rng.randint(1, len(inner) - 1)))
             op["malformed"] = not (consumed <= set(op["out"]))
@@ -461,6 +466,36 @@ def propose_malformed(rng, runner, k):
     return {"op": "rename", "src": src, "dst": dst, "map": [["nosuchname2", outs[0]]]}      # unused key onto an existing name
 
 
+def gen_nestmap_case(rng, k_case):
+    """Round 4: a MapSpec pipeline with a (nearly) combinable group; the group is nested, then the nested pipeline goes through 0-2 more
+    rewrites (rename, scope, copy, pickle, split, add_mapspec_axis, mutations, another nest / simplify) - each observed under map."""
+    desc, info = NM.gen_env(rng)
+    env = [["p0", {"kind": "map", "desc": desc}]]
+    runner = R.Runner(env)
+    runner.counts.append(f"nestmap:shape:{info['shape']}")
+    runner.counts.append(f"nestmap:perturbation:{info['perturb']}")
+    ops = [NM.nest_op(rng, info, "p0", "p1")]
+    try:
+        ok = runner.apply(ops[0])
+    except Exception as e:  # noqa: BLE001
+        runner.inconsistent(e, ops)
+        return {"env": env, "ops": ops}, runner
+    runner.counts.append(f"nestmap:{'nested' if ok else 'refused'}:{info['shape']}:{info['perturb']}")
+    if ok and ops[0]["out"] is not None and ops[0]["out"] != sorted(ops[0]["out"]):
+        runner.counts.append("nestmap:output_name-not-sorted")
+    for k in range(rng.choice([0, 1, 1, 2])):
+        if runner.halted:
+            break
+        try:
+            op = propose(rng, runner, k + 1, allow_mutation=True)
+        except Exception as e:  # noqa: BLE001
+            runner.inconsistent(e, ops)
+            break
+        ops.append(op)
+        runner.apply(op)
+    return {"env": env, "ops": ops}, runner
+
+
 P_MUTATE_AFTER = 0.5
 SEEN: dict = {}      # (rewrite kind, mutation kind, new|old) -> proposals in this run (reset by `run`; steers the choice only)
 
@@ -551,7 +586,64 @@ def MAP2():
         "inputs": [["c1", {"s": "in:c1"}], ["x0", {"arr": [[2], [{"s": "e0"}, {"s": "e1"}]]}]], "input_kinds": {"x0": "array"}, "internal": [], "sizes": {"i": 2}}}]]
 
 
+def MF(name, params, outputs, ms=None, defaults=(), bound=()):
+    """A mapgen-format function; `ms` = (inputs, outputs) as [[name, axes]] lists."""
+    m = None if ms is None else {"inputs": [list(a) for a in ms[0]], "outputs": [list(a) for a in ms[1]]}
+    return {"name": name, "params": [[q, q] for q in params], "outputs": list(outputs), "mapspec": m, "mapspec_str": NM.spec_str(m) if m else None,
+            "autogen": False, "ret": None, "internal": None, "defaults": [list(d) for d in defaults], "bound": [list(b) for b in bound]}
+
+
+def XARR(name, n):
+    return {"arr": [[n], [{"f": "in", "k": [["n", {"s": name}], ["at", {"arr": [[1], [q]]}]]} for q in range(n)]]}
+
+
+def map_env(funcs, inputs, kinds=None):
+    return [["p0", {"kind": "map", "desc": {"funcs": funcs, "inputs": inputs, "input_kinds": kinds or {}, "internal": [], "sizes": {}}}]]
+
+
+def CHAIN(extra_f0=(), extra_f1=(), **kw):
+    """x0[i] -> y0[i] -> y1[i], reduced by f2 outside the group"""
+    return [MF("f0", ["x0", *extra_f0], ["y0"], ([["x0", ["i"]]], [["y0", ["i"]]]), **kw),
+            MF("f1", ["y0", *extra_f1], ["y1"], ([["y0", ["i"]]], [["y1", ["i"]]])),
+            MF("f2", ["y1"], ["t2"])]
+
+
 CORPUS: list = [
+    # DF-C10-nested-map (fixed in /repo by e747271): `Pipeline.map` on ANY pipeline containing a NestedPipeFunc raised AttributeError
+    # ('NestedPipeFunc' object has no attribute 'internal_shape'): an element-wise chain nested and mapped; renamed, scoped, pickled afterwards
+    {"env": map_env(CHAIN(), [["x0", XARR("x0", 3)]], {"x0": "list"}),
+     "ops": [{"op": "nest", "src": "p0", "dst": "p1", "sel": ["y0", "y1"], "out": None},
+             {"op": "nest", "src": "p0", "dst": "p2", "sel": ["y0", "y1"], "out": ["y1"]},
+             {"op": "rename", "src": "p1", "dst": "p3", "map": [["y1", "y1_R"], ["x0", "x0_R"]]},
+             {"op": "scope", "src": "p1", "dst": "p4", "scope": "S"},
+             {"op": "pickle", "src": "p1", "dst": "p5"}]},
+    # DF-C10-nest-unmapped-param (round 4): a nested function with a parameter that no MapSpec mentions (a default, a constant, a bound value)
+    {"env": map_env(CHAIN(extra_f0=["c0"], extra_f1=["c1", "c2"], defaults=[["c0", {"s": "dflt:c0"}]]), [["x0", XARR("x0", 2)], ["c1", {"s": "in:c1"}], ["c2", {"s": "in:c2"}]]),
+     "ops": [{"op": "nest", "src": "p0", "dst": "p1", "sel": ["y0", "y1"], "out": None},
+             {"op": "set_bound", "target": "p0", "out": "y1", "map": [["c2", {"s": "newbound"}]]},
+             {"op": "nest", "src": "p0", "dst": "p2", "sel": ["y0", "y1"], "out": None}]},
+    # DF-C10-nest-output-order (round 4): output_name of the nest not in alphabetical order
+    {"env": map_env(CHAIN(), [["x0", XARR("x0", 2)]]),
+     "ops": [{"op": "nest", "src": "p0", "dst": "p1", "sel": ["y0", "y1"], "out": ["y1", "y0"]}]},
+    # DF-C10-nest-array-use (round 4): f1 takes x0 WHOLE while f0 maps over it -> the combined MapSpec handed f1 the element (wrong values);
+    # x0[i, :] in f0 and x0[:, i] in f1 -> merged into x0[i, i].  Both are refused now.
+    {"env": map_env([MF("f0", ["x0"], ["y0"], ([["x0", ["i"]]], [["y0", ["i"]]])), MF("f1", ["y0", "x0"], ["y1"], ([["y0", ["i"]]], [["y1", ["i"]]]))],
+                    [["x0", XARR("x0", 3)]]),
+     "ops": [{"op": "nest", "src": "p0", "dst": "p1", "sel": ["y0", "y1"], "out": None}]},
+    {"env": map_env([MF("f0", ["x0"], ["y0"], ([["x0", ["i", None]]], [["y0", ["i"]]])),
+                     MF("f1", ["y0", "x0"], ["y1"], ([["y0", ["i"]], ["x0", [None, "i"]]], [["y1", ["i"]]]))],
+                    [["x0", {"arr": [[2, 2], [{"f": "in", "k": [["n", {"s": "x0"}], ["at", {"arr": [[2], [a, b]]}]]} for a in range(2) for b in range(2)]]}]]),
+     "ops": [{"op": "nest", "src": "p0", "dst": "p1", "sel": ["y0", "y1"], "out": None}]},
+    # zip + outer product + a tuple output inside the nest; a reduction inside (refused: mix); nest of a nest
+    {"env": map_env([MF("f0", ["x0", "x1"], ["y0a", "y0b"], ([["x0", ["i"]], ["x1", ["j"]]], [["y0a", ["i", "j"]], ["y0b", ["i", "j"]]])),
+                     MF("f1", ["y0b", "x1"], ["y1"], ([["y0b", ["i", "j"]], ["x1", ["j"]]], [["y1", ["i", "j"]]])),
+                     MF("f2", ["y1", "y0a"], ["y2"], ([["y1", ["i", "j"]], ["y0a", ["i", "j"]]], [["y2", ["i", "j"]]])),
+                     MF("f3", ["y2"], ["t3"])],
+                    [["x0", XARR("x0", 2)], ["x1", XARR("x1", 3)]]),
+     "ops": [{"op": "nest", "src": "p0", "dst": "p1", "sel": ["y0a", "y1"], "out": None},
+             {"op": "nest", "src": "p1", "dst": "p2", "sel": ["y1", "y2"], "out": ["y2"]},
+             {"op": "nest", "src": "p0", "dst": "p3", "sel": ["y2", "t3"], "out": None}]},
+
     # seeded change C10-s1-A: a function that already has a bound value is copied, then update_bound on the copy / on the original
     {"env": call_env(F("f0", ["r0", "r1", "r2"], ["o0"], bound=[["r1", {"s": "bound:r1:f0"}]]), F("f1", ["o0", "r3"], ["o1"])),
      "ops": [{"op": "copy", "src": "p0", "dst": "p1"},
@@ -666,7 +758,7 @@ def run(ctx):
         ctx.count("corpus")
     for k in range(ctx.n(640, 12000)):
         try:
-            case, runner = gen_rename_case(rng, k) if k % 5 == 4 else gen_case(rng, k)
+            case, runner = gen_rename_case(rng, k) if k % 5 == 4 else gen_nestmap_case(rng, k) if k % 5 == 2 else gen_case(rng, k)
         except Exception as e:  # noqa: BLE001   the generator builds valid pipelines only
             ctx.count(f"generator-exc:{exc_enum(e)}")
             raise
